@@ -200,8 +200,21 @@ def _sig(cid, op, fl):
     return f'{cid}:py:{op}:{fl or "unexplained"}'
 
 
+def _source_stage(R, cid):
+    """regenerate coq/Gen/PyPattern.v from the current source; if it changed (or the translator failed closed) the
+    proof stage of the calling check may have used a stale copy: rebuild Props/<cid>.vo now"""
+    ok_tr, msg, changed = PS.regen_pypattern()
+    if ok_tr and not changed:
+        return True, ''
+    ok, log = C.coq_make([f'Props/{cid}.vo'])
+    if ok_tr and ok:
+        return True, ''
+    return False, (msg or log[-1500:])
+
+
 def py_side(R, cid, tier, seed):
     nv = len(R.violations)
+    src_ok, src_msg = _source_stage(R, cid)
     if cid == 'C06':
         res = _c06(R, tier, seed)
     elif cid == 'C11':
@@ -209,6 +222,11 @@ def py_side(R, cid, tier, seed):
     else:
         raise ValueError(cid)
     R.notes.append({'py_side': {k: (len(v) if isinstance(v, list) else v) for k, v in res.items()}})
+    if not src_ok and len(R.violations) == nv:
+        R.violation(f'{cid}:py:source-proof-broken',
+                    'coq/Gen/PyPattern.v regenerated from the current pattern.py no longer satisfies the agreement / source theorems',
+                    {'no_failing_input_found': True, 'theorem_or_correspondence': f'Props/{cid}.v ({cid}_source_py_*), Py/GenPyPatternAgree.v',
+                     'log': src_msg})
     if res['tie_mismatches'] and len(R.violations) == nv:
         # the model no longer describes pattern.py and the oracle found nothing: still a violation
         R.violation(f'{cid}:py:correspondence-broken', 'model (coq/Py/Pattern.v) and proof_generation.pattern disagree',
